@@ -550,6 +550,9 @@ class Interp:
     def st_Assert(self, s, env):
         v = self.eval(s.test, env)
         if is_z3(v) or isinstance(v, SV):
+            log = getattr(self.ctx, "assert_log", None)
+            if log is not None:
+                log.append((env.qualname, s.lineno, as_bool_term(v)))
             if getattr(self.session, "assert_mode", "safety") == "branch":
                 # the assertion is part of the function's behaviour (a verification step that may fail)
                 if self.truth(v):
